@@ -275,7 +275,7 @@ def _run_shard(args):
             outs.extend(['CRASH-SKIPPED'] * (len(lines) - len(outs))); break
     return outs
 
-def run_both(lib, snap, lines, shards=NCPU):
+def run_both(lib, snap, lines, shards=NCPU, env=None, wrapper=None):
     """Run the C driver and the model driver on the same case lines; returns (c_out, m_out) lists."""
     snap.dump()
     n = len(lines)
@@ -285,6 +285,8 @@ def run_both(lib, snap, lines, shards=NCPU):
     chunks = [lines[i * n // k:(i + 1) * n // k] for i in range(k)]
     ccmd = [lib.drv()]
     cenv = {'DRV_LINEBUF': '1', 'ASAN_OPTIONS': 'detect_leaks=1:abort_on_error=0:handle_abort=0', 'UBSAN_OPTIONS': 'print_stacktrace=1'} if lib.san else {}
+    if env: cenv = dict(cenv, **env)
+    if wrapper: ccmd = list(wrapper) + ccmd
     mcmd = [model_drv(), snap.table_file] + lib.model_args()
     jobs = [(ccmd, c, cenv) for c in chunks] + [(mcmd, c, {}) for c in chunks]
     with ThreadPoolExecutor(max_workers=NCPU) as ex:
